@@ -25,6 +25,7 @@ func main() {
 	repOffset := flag.Int("rep-offset", 0, "C14: number the replicas from this offset + 1")
 	jsonl := flag.String("jsonl", "", "file with one behaviour (JSON array) per line")
 	lastOnly := flag.Bool("last-only", false, "mark every step but the last of a behaviour as judge=false")
+	adapter := flag.String("adapter", "keeper", "keeper (message router on a cache branch) or abci (signed transactions, FinalizeBlock)")
 	addrs := flag.Int("addrs", 0, "print the bech32 addresses of model users u1..uN as JSON and exit")
 	flag.Parse()
 	if *addrs > 0 {
@@ -64,6 +65,9 @@ func main() {
 	}
 	enc := json.NewEncoder(w)
 	emit := func(name string, bz []byte) error {
+		if *adapter == "abci" {
+			return fr.ReplayAbci(name, bz, func(s fr.Step) error { return enc.Encode(s) })
+		}
 		if !*lastOnly {
 			return fr.ReplayReplicas(base, name, bz, *replicas, *repOffset, func(s fr.Step) error { return enc.Encode(s) })
 		}
